@@ -211,10 +211,28 @@ static void worker(int t, bool use_err, int nrec, int nbytes, unsigned seed)
         log_event(t, 5);
         g.at[t] = Requested;
         g.steps_done[t]++;
-        if (use_err)
-            LErr::info() << msg;
-        else
-            LOut::info() << msg;
+        // every severity goes through the same sink and the same lock
+        switch ((t * 3 + r * 2 + static_cast<int>(seed)) % 6)
+        {
+        case 0:
+            use_err ? (void)(LErr::trace() << msg) : (void)(LOut::trace() << msg);
+            break;
+        case 1:
+            use_err ? (void)(LErr::debug() << msg) : (void)(LOut::debug() << msg);
+            break;
+        case 2:
+            use_err ? (void)(LErr::info() << msg) : (void)(LOut::info() << msg);
+            break;
+        case 3:
+            use_err ? (void)(LErr::warn() << msg) : (void)(LOut::warn() << msg);
+            break;
+        case 4:
+            use_err ? (void)(LErr::error() << msg) : (void)(LOut::error() << msg);
+            break;
+        default:
+            use_err ? (void)(LErr::fatal() << msg) : (void)(LOut::fatal() << msg);
+            break;
+        }
         log_event(t, 6);
         g.at[t] = Released;
         g.steps_done[t]++;
